@@ -574,4 +574,49 @@ theorem rdata_enum_arms (rd : RData) :
   rw [h1, h2]
   cases rd <;> simp [RData.typeOf, typeOfWith, RData.intoOwned, intoOwnedWith]
 
+/-! ### 17. the codes questions are written with (`From<QTYPE> for u16`, `From<QCLASS> for u16`) -/
+
+/-- the code of a question type, by the arms read from the source: the arm named after the variant
+gives the number, `none` stands for the conversion of the wrapped `TYPE` -/
+def qtypeCodeWith (arms : List (String × Option Nat)) (t : QTYPE) : Option Nat :=
+  let name := match t with
+    | .TYPE _ => "TYPE" | .IXFR => "IXFR" | .AXFR => "AXFR" | .MAILB => "MAILB" | .MAILA => "MAILA" | .ANY => "ANY"
+  match arms.lookup name, t with
+  | some (some n), _ => some n
+  | some none, .TYPE ty => some ty.toCode
+  | _, _ => none
+
+def qclassCodeWith (arms : List (String × Option Nat)) (c : QCLASS) : Option Nat :=
+  let name := match c with
+    | .CLASS _ => "CLASS" | .ANY => "ANY"
+  match arms.lookup name, c with
+  | some (some n), _ => some n
+  | some none, .CLASS k => some k.toCode
+  | _, _ => none
+
+def modelQtypeArms : List (String × Option Nat) :=
+  [("TYPE", none), ("IXFR", some 251), ("AXFR", some 252), ("MAILB", some 253), ("MAILA", some 254), ("ANY", some 255)]
+def modelQclassArms : List (String × Option Nat) := [("CLASS", none), ("ANY", some 255)]
+
+/-- **every question type and class is written with the code the model writes** - the model's
+`QTYPE.toCode` / `QCLASS.toCode` are the arms of the two `From` impls as the source has them (an arm
+pointing a special type at another code - `MAILA => TYPE::MX.into()` - fails this theorem or unties
+the item), and the codes read back by `TryFrom<u16>` to the same variants -/
+theorem question_codes_out (t : QTYPE) (c : QCLASS) :
+    qtypeCodeWith (Gen.Env.qtypeToCode.getD modelQtypeArms) t = some t.toCode ∧
+    qclassCodeWith (Gen.Env.qclassToCode.getD modelQclassArms) c = some c.toCode := by
+  have h1 : Gen.Env.qtypeToCode.getD modelQtypeArms = modelQtypeArms := by decide
+  have h2 : Gen.Env.qclassToCode.getD modelQclassArms = modelQclassArms := by decide
+  rw [h1, h2]
+  constructor
+  · cases t <;> simp [qtypeCodeWith, modelQtypeArms, List.lookup, QTYPE.toCode]
+  · cases c <;> simp [qclassCodeWith, modelQclassArms, List.lookup, QCLASS.toCode]
+
+/-- the special question types and the wildcard class come back from their own codes -/
+theorem question_codes_round :
+    QTYPE.ofCode QTYPE.IXFR.toCode = .ok .IXFR ∧ QTYPE.ofCode QTYPE.AXFR.toCode = .ok .AXFR ∧
+    QTYPE.ofCode QTYPE.MAILB.toCode = .ok .MAILB ∧ QTYPE.ofCode QTYPE.MAILA.toCode = .ok .MAILA ∧
+    QTYPE.ofCode QTYPE.ANY.toCode = .ok .ANY ∧ QCLASS.ofCode QCLASS.ANY.toCode = .ok .ANY := by
+  decide
+
 end Dns.TieEnv
